@@ -4,7 +4,7 @@ ENGINES = [
 ]
 NOTES = "All checks: ./run.sh <id> quick|thorough rebuilds the harness against /repo's working tree (replace directive) and rewrites evidence/<id>.json. known_findings.json is read-only at run time."
 NOT_YET = {}
-ENGINES.append({"name": "E2-regen", "path": "/verif/internal/regen, /verif/drivers", "serves_properties": ["C05", "C14"],
+ENGINES.append({"name": "E2-regen", "path": "/verif/internal/regen, /verif/drivers", "serves_properties": ["C05", "C14", "C20"],
      "kind_free_text": "regenerate-compile-drive pipeline: specs are generated in process by the generator of the tree under check into a scratch module, compiled with a driver and every case of the bounded space is executed on the regenerated code"})
 CHECKS["C12"] = dict(
     category="exploration", engine="E1-enum",
@@ -56,4 +56,11 @@ CHECKS["C14"] = dict(
     technique="complete enumeration of the go:generate directives, re-run with generators built from the working tree, byte comparison",
     text="Finite and complete: all 42 go:generate directives with a present input (41 cmd/ogen packages, jschemagen, mkformattest) are re-run with binaries built from the tree under check (GOTOOLCHAIN=local, the directive's flags, working directory and GOPACKAGE) into a scratch target; file sets and bytes must equal the checked-in ones (695 files).",
     note="ex_k8s is skipped: its input spec is an emptied file in this sandbox. Trusted: nothing beyond the go tool.",
+)
+
+CHECKS["C20"] = dict(
+    category="fault_enumeration", engine="E2-regen",
+    technique="complete enumeration of failure stage x target-directory state x flags on the built cmd/ogen binary with before/after snapshots",
+    text="Every pre-write failure stage (16: unknown flag, missing argument, config missing/invalid/unknown field/unknown feature, spec missing/directory, malformed YAML/JSON, spec validation x2, dangling $ref, not-implemented, IR build error, route conflict) and two successful runs are crossed with 18 (quick) / 33 (thorough) target states (absent, empty, every subset of {previous generation with stale files, look-alike user files, generated-looking sub-directories, symlink, read-only generated file}), --clean on/off and relative/absolute target: 1296 / 2376 executions of the binary built from the working tree. Failure => exit != 0 and the recursive snapshot of the target (and of the working directory) is unchanged; success => only top-level files matching the generator's pattern are created/overwritten/removed, removal only with --clean.",
+    note="Fixtures are self-validating (each must fail at its intended stage, checked by error text on every run). Runs as root: permission-denied paths are not reachable in this sandbox. Failures after writing has begun (formatter errors) are outside the property.",
 )
